@@ -254,12 +254,19 @@ func runRecordsMalformed(out string, seed int64, n int, allBits bool, ch *w1.Chi
 					add(rinput{"mset", fixMsgCRC(putI32(enc, at, v)), 0, nil, "field", fmt.Sprintf("int32 at %d := %d, CRC recomputed", at, v)})
 				}
 			}
-			// the overflow-message convention: offset -1 on a truncated trailing block
-			ov := append([]byte{}, enc...)
-			for k := 0; k < 8; k++ {
-				ov[k] = 0xff
+			// the overflow-message convention: offset -1 (and only -1) on a truncated trailing block
+			for _, ob := range []byte{0xff, 0x00} {
+				ov := append([]byte{}, enc...)
+				for k := 0; k < 8; k++ {
+					ov[k] = ob
+				}
+				for _, cut := range []int{len(ov) - 1, len(ov) / 2, 20, 17} {
+					if cut > 0 && cut < len(ov) {
+						add(rinput{"mset", ov[:cut], 0, nil, "field", fmt.Sprintf("first offset bytes %#x, first %d bytes", ob, cut)})
+						add(rinput{"top", ov[:cut], 0, nil, "field", fmt.Sprintf("first offset bytes %#x, first %d bytes", ob, cut)})
+					}
+				}
 			}
-			add(rinput{"mset", ov[:len(ov)-1], 0, nil, "field", "offset -1, last byte missing"})
 		}
 		rec := g.Record()
 		if res := sarama.VerifEncodeValue(rec); res.Status == 0 && len(res.Bytes) < 400 {
